@@ -9,7 +9,13 @@ import json, os, shutil, subprocess, sys
 HERE = os.path.dirname(os.path.dirname(os.path.abspath(__file__)))
 
 def main():
-    for wt in sys.argv[1:]:
+    prefix = ""
+    args = sys.argv[1:]
+    if "--prefix" in args:
+        i = args.index("--prefix")
+        prefix = args[i + 1]
+        del args[i:i + 2]
+    for wt in args:
         sd = os.path.join(wt, "seeds")
         if not os.path.isdir(sd):
             print(wt, "no seeds dir"); continue
@@ -31,7 +37,7 @@ def main():
             pid = m.get("property") or os.path.basename(wt)
             valid = ("passed" in res.get("tests_with_seed", "") and "failed" not in res.get("tests_with_seed", "")
                      and res.get("demo_with_seed_rc") not in (0, None) and res.get("demo_clean_rc") == 0)
-            name = "%s-%d" % (os.path.basename(wt), k)
+            name = "%s%s-%d" % (prefix, os.path.basename(wt), k)
             fired = [f[0] for f in res.get("fired", [])]
             print("%s valid=%s tests=%r demo_seed_rc=%s demo_clean_rc=%s fired=%s errors=%s" % (
                 name, valid, res.get("tests_with_seed"), res.get("demo_with_seed_rc"), res.get("demo_clean_rc"), fired,
